@@ -216,6 +216,9 @@ def prop (l : Line) (impl : String) : String :=
             some s!"fail:seq{i}.msg{k}:want={(want[k]?.map showN).getD "-"}"
           -- sharper (deterministic): the timestamp is in front exactly where the encoder compressed it
           else if want != got then some s!"fail:seq{i}:timestamp-placement"
+          -- rule (c) taken apart (`C01_e2e_roundtrip_strict_partial`): every string of a string array keeps its place —
+          -- the decoder's dropping of empty strings is not part of what the property allows
+          else if !seqMatches strictValue false l.o.fac l.c.w.arch {} kept got then some s!"fail:seq{i}:empty-string-dropped"
           else none) with
       | some why => why
       | none => "ok"
